@@ -1042,7 +1042,24 @@ func checkE0(c CaseE) (viol *core.Violation) {
 					// file / log line / row / reply, the task is answered all the same
 					lastE.labels["final-callback-under-fault-without-visible-effect"] = true
 				}
-				if k.Final && (had || fr != nil && fr.fired && implHas) {
+				ends := k.Final && (had || fr != nil && fr.fired && implHas)
+				if k.Final && !had && implHas && (fr == nil || !fr.fired) {
+					// (2b) a callback of the finality table was processed with an id that is outstanding
+					// (model) and that the teamserver held, no dependency failing, and nothing of it is
+					// visible - not even the outstanding-id list changed.  It was the task's final
+					// callback all the same: the id is no longer accepted.  Probe with an output callback.
+					lastE.labels["final-callback-without-visible-effect:"+k.Name] = true
+					pk := kindByName["output"]
+					eff3, change3, v := sendAs(g, demonref.Sub{Cmd: pk.Cmd, ReqID: id, Body: pk.Build(ses, op.Text, op.N)}, false)
+					if v != nil {
+						return v
+					}
+					if len(eff3) > 0 || change3 != "" {
+						return core.V("completed-id-accepted|completed-by="+k.Name, "agent %d (%s): the final %s callback of request %#x was processed (nothing visible, the id stayed listed as outstanding); a later output callback carrying that id was acted upon: %s %s", g, via, k.Name, id, describe(eff3), change3)
+					}
+					ends = true
+				}
+				if ends {
 					t := m.find(id)
 					t.doneBy = k.Name
 					if t.via == "operator" {
@@ -1239,7 +1256,7 @@ func classifyE(c CaseE) core.Class {
 func TestC05a(t *testing.T) {
 	core.Run(t, core.Spec[CaseE]{
 		Property: "C05", Sub: "a",
-		Rule: fmt.Sprintf("histories of 1-30 operations over a forest of 2-4 agents (roots registered through the real agent endpoint, SMB children linked by a real SMB_CONNECT callback of their parent, depth <= 2; tsx.Recorder as teamserver, private loot tree, SendLogs on in 1/4 of the cases): issue a task to any agent (AddJobToQueue with a fresh request id, one of %d commands; for a child it is wrapped into COMMAND_PIVOT jobs of its ancestors), operator fs-upload (mem-file chunk tasks, direct agents), an operator task request to any agent through the real TaskPrepare with a generated option map, queued like dispatch.go does (%d commands: inline execute with HasCallback true / false / absent - true registers a BofCallbacks entry keyed by the request id -, all flag values, object file and argument sizes 0-599 / 0-39 bytes, each uploaded as mem-file chunk tasks with request ids of their own; dotnet inline execute (assembly as mem-file); sleep, exit, checkin, proc list, screenshot, dotnet list-versions, job list; in about 1/3 of the inline-execute requests and 1/8 of the sleep / exit requests an option is missing or undecodable, so that TaskPrepare refuses the request after it may already have registered the callback entry and queued chunk tasks: such a TaskID was never issued and is probed as id source refused), in 3/4 of the cases followed by the life of that very task: hand-out, 0-2 streamed callbacks with its id, one of the callbacks that end a task of its command (inline execute: ran-ok / could-not-run / exception / symbol-not-found, dotnet: failed, else the command's final kinds) optionally replayed, 1-2 probes with the id just completed; relay job without request id (SOCKS write), hand-out, a session-level message of an agent for its own id (DEMON_INIT again with the same or another key and metadata - for a pivot child a repeated SMB_CONNECT by its parent -, a plain check-in), callback = one of %d well-formed callback kinds (payloads as Package.c builds them) sent by any agent - directly or relayed hop by hop as COMMAND_PIVOT/SMB_COMMAND - carrying an id from {own outstanding, own completed, outstanding at a descendant / at another agent, never issued, 0}, optionally replayed byte for byte. In 1/6 of the cases (label relay-state-case) the history also carries relay state, i.e. what makes the teamserver queue jobs on its own: a socks proxy started by the real operator command (TaskPrepare socks add <free port>) with real loopback clients that do the greeting and ask for a CONNECT (the teamserver queues the connect job, no request id) and are then alive / reset / half-closed when the agent answers; socks kill; a forwarded host that listens and a port nobody listens on for reverse port forwards; and callbacks of %d always-accepted relay kinds (socket connect answer ok / failed, read for the proxy client or - port forward - for the forwarded host which is dialled with the first piece, failed read / write, close, port-forward open / remove, rportfwd add / list / clear, pivot list / connect failed / disconnect of an unlinked id) aimed at the newest or another existing socket or an unknown one, carrying an id from ALL the id sources above. Oracle: (1) a callback whose id was not issued to THAT agent or is completed (kind not socket/pivot, not beacon-output with SendLogs) records nothing beyond the bookkeeping of a body-less request on the same path, leaves every agent's outstanding-id list, session data and the loot tree unchanged - whatever else the teamserver queued for or through that agent; (2) after a callback from the finality table was processed with an outstanding id, the same package again, and any later callback with that id, has no effect; (3) after every always-accepted callback whose id is not outstanding for that agent by the model - and after whatever it made the teamserver do (reply to or close the client, queue a close job, dial) - a non-relay callback (output / sleep) with the same id is refused; (4) after every step of the history, every request id the teamserver lists as outstanding for an agent but that the model never issued to it (or has completed) is probed with an output callback, which must be refused: jobs the teamserver queues on its own make no id acceptable. Non-trivial: a rejected callback of an effectful kind whose id was completed, foreign or a descendant's; distinct = (pivot depth, SendLogs, set of plausible rejected id sources, set of contexts in which id 0 was probed). FAULT DIMENSION (fault_test.go; 1/4 of the cases without relay state, labels fault:<dependency>:<operation>:<how>@<step>): ONE request of ONE step is served while ONE dependency of the teamserver fails, then the fault is lifted and the history goes on. Dependencies, all failed from outside the code under test: (socket, reply write) the http.ResponseWriter the listener's handler writes its reply to is the fixture's wrapper whose first Write returns ECONNRESET or EPIPE after 0 bytes or after k of them (writer-econnreset / writer-epipe / writer-short-write), or the request travels over a real loopback TCP connection to a net/http server of the harness in front of the same gin engine and the peer resets (SO_LINGER 0) or closes the connection after its request was read and before the handler runs (peer-reset / peer-close; the handler itself sees the write fail when the reply exceeds net/http's 4 KiB buffer - an fs-upload of 4-9 KB is queued along for that - otherwise the reply is lost after the handler returned); (file, loot write) the agents folder / the agent's folder / its Screenshots or Download folder is replaced by a regular file (dir-replaced), is read-only with everything below it (read-only; CAP_DAC_OVERRIDE given up on the locked thread), the process has no descriptor left (no-descriptor: RLIMIT_NOFILE 0 for the request), or the files of the agent's running downloads were closed underneath (descriptor-closed); (file, console log open) the same three folder faults for the console log that events.Demons.DemonOutput appends to; (database, agent update) a second connection installs CREATE TRIGGER .. BEFORE UPDATE ON TS_Agents .. RAISE(FAIL, 'database or disk is full') for the request. The last two run on a tee teamserver: the recorder plus a real server.Teamserver on a private sqlite file that receives AgentConsole / AgentUpdate / AgentAdd / Died / AgentCallbackSize. The faulted request is the first hand-out check-in of the step (hand-out step, or the hand-out a callback / session step starts with) or the step's own request (the one that carries the callback, the session message). In 3/4 of the fault cases the fault sits in a generated life of a task inserted at a generated place of the history: 1-3 tasks issued (bare job / operator path), hand-out, 0-2 ordinary steps, [for loot faults: screenshot, or download open / write(s) / close, or beacon file callbacks with the task's id - one of them under the fault, optionally with an id that is not outstanding], the final callback (optionally replayed), 1-2 probes with the completed id; in 1/4 on any request-sending step of the history. Model from HEAD (verified by experiment): a reply that is not delivered changes nothing - its jobs are off the queue, their ids stay outstanding until their final callback; a loot / console / database failure costs the file / line / row, the callback is processed all the same, and a final callback that the teamserver still held the id for ends its task even when nothing else of it is visible. Oracle unchanged: (1)-(4) under and after every fault", len(issueCmds), len(opCmds), len(kinds), len(relayIdx)),
+		Rule: fmt.Sprintf("histories of 1-30 operations over a forest of 2-4 agents (roots registered through the real agent endpoint, SMB children linked by a real SMB_CONNECT callback of their parent, depth <= 2; tsx.Recorder as teamserver, private loot tree, SendLogs on in 1/4 of the cases): issue a task to any agent (AddJobToQueue with a fresh request id, one of %d commands; for a child it is wrapped into COMMAND_PIVOT jobs of its ancestors), operator fs-upload (mem-file chunk tasks, direct agents), an operator task request to any agent through the real TaskPrepare with a generated option map, queued like dispatch.go does (%d commands: inline execute with HasCallback true / false / absent - true registers a BofCallbacks entry keyed by the request id -, all flag values, object file and argument sizes 0-599 / 0-39 bytes, each uploaded as mem-file chunk tasks with request ids of their own; dotnet inline execute (assembly as mem-file); sleep, exit, checkin, proc list, screenshot, dotnet list-versions, job list; in about 1/3 of the inline-execute requests and 1/8 of the sleep / exit requests an option is missing or undecodable, so that TaskPrepare refuses the request after it may already have registered the callback entry and queued chunk tasks: such a TaskID was never issued and is probed as id source refused), in 3/4 of the cases followed by the life of that very task: hand-out, 0-2 streamed callbacks with its id, one of the callbacks that end a task of its command (inline execute: ran-ok / could-not-run / exception / symbol-not-found, dotnet: failed, else the command's final kinds) optionally replayed, 1-2 probes with the id just completed; relay job without request id (SOCKS write), hand-out, a session-level message of an agent for its own id (DEMON_INIT again with the same or another key and metadata - for a pivot child a repeated SMB_CONNECT by its parent -, a plain check-in), callback = one of %d well-formed callback kinds (payloads as Package.c builds them) sent by any agent - directly or relayed hop by hop as COMMAND_PIVOT/SMB_COMMAND - carrying an id from {own outstanding, own completed, outstanding at a descendant / at another agent, never issued, 0}, optionally replayed byte for byte. In 1/6 of the cases (label relay-state-case) the history also carries relay state, i.e. what makes the teamserver queue jobs on its own: a socks proxy started by the real operator command (TaskPrepare socks add <free port>) with real loopback clients that do the greeting and ask for a CONNECT (the teamserver queues the connect job, no request id) and are then alive / reset / half-closed when the agent answers; socks kill; a forwarded host that listens and a port nobody listens on for reverse port forwards; and callbacks of %d always-accepted relay kinds (socket connect answer ok / failed, read for the proxy client or - port forward - for the forwarded host which is dialled with the first piece, failed read / write, close, port-forward open / remove, rportfwd add / list / clear, pivot list / connect failed / disconnect of an unlinked id) aimed at the newest or another existing socket or an unknown one, carrying an id from ALL the id sources above. Oracle: (1) a callback whose id was not issued to THAT agent or is completed (kind not socket/pivot, not beacon-output with SendLogs) records nothing beyond the bookkeeping of a body-less request on the same path, leaves every agent's outstanding-id list, session data and the loot tree unchanged - whatever else the teamserver queued for or through that agent; (2) after a callback from the finality table was processed with an outstanding id, the same package again, and any later callback with that id, has no effect; (3) after every always-accepted callback whose id is not outstanding for that agent by the model - and after whatever it made the teamserver do (reply to or close the client, queue a close job, dial) - a non-relay callback (output / sleep) with the same id is refused; (4) after every step of the history, every request id the teamserver lists as outstanding for an agent but that the model never issued to it (or has completed) is probed with an output callback, which must be refused: jobs the teamserver queues on its own make no id acceptable. Non-trivial: a rejected callback of an effectful kind whose id was completed, foreign or a descendant's; distinct = (pivot depth, SendLogs, set of plausible rejected id sources, set of contexts in which id 0 was probed). FAULT DIMENSION (fault_test.go; 1/4 of the cases without relay state, labels fault:<dependency>:<operation>:<how>@<step>): ONE request of ONE step is served while ONE dependency of the teamserver fails, then the fault is lifted and the history goes on. Dependencies, all failed from outside the code under test: (socket, reply write) the http.ResponseWriter the listener's handler writes its reply to is the fixture's wrapper whose first Write returns ECONNRESET or EPIPE after 0 bytes or after k of them (writer-econnreset / writer-epipe / writer-short-write), or the request travels over a real loopback TCP connection to a net/http server of the harness in front of the same gin engine and the peer resets (SO_LINGER 0) or closes the connection after its request was read and before the handler runs (peer-reset / peer-close; the handler itself sees the write fail when the reply exceeds net/http's 4 KiB buffer - an fs-upload of 4-9 KB is queued along for that - otherwise the reply is lost after the handler returned); (file, loot write) the agents folder / the agent's folder / its Screenshots or Download folder is replaced by a regular file (dir-replaced), is read-only with everything below it (read-only; CAP_DAC_OVERRIDE given up on the locked thread), the process has no descriptor left (no-descriptor: RLIMIT_NOFILE 0 for the request), or the files of the agent's running downloads were closed underneath (descriptor-closed); (file, console log open) the same three folder faults for the console log that events.Demons.DemonOutput appends to; (database, agent update) a second connection installs CREATE TRIGGER .. BEFORE UPDATE ON TS_Agents .. RAISE(FAIL, 'database or disk is full') for the request. The last two run on a tee teamserver: the recorder plus a real server.Teamserver on a private sqlite file that receives AgentConsole / AgentUpdate / AgentAdd / Died / AgentCallbackSize. The faulted request is the first hand-out check-in of the step (hand-out step, or the hand-out a callback / session step starts with) or the step's own request (the one that carries the callback, the session message). In 3/4 of the fault cases the fault sits in a generated life of a task inserted at a generated place of the history: 1-3 tasks issued (bare job / operator path), hand-out, 0-2 ordinary steps, [for loot faults: screenshot, or download open / write(s) / close, or beacon file callbacks with the task's id - one of them under the fault, optionally with an id that is not outstanding], the final callback (optionally replayed), 1-2 probes with the completed id; in 1/4 on any request-sending step of the history. Model from HEAD (verified by experiment): a reply that is not delivered changes nothing - its jobs are off the queue, their ids stay outstanding until their final callback; a loot / console / database failure costs the file / line / row, the callback is processed all the same, and a final callback that the teamserver still held the id for ends its task even when nothing else of it is visible. Oracle unchanged: (1)-(4) under and after every fault. DOWNLOADS THE TEAMSERVER DOES NOT TRACK (kinds fs-download-open-refused, fs-download-close-unopened; labels accepted:<kind>, final-replayed:fs-download-close-unopened): a download open callback whose file name leaves the agent's loot folder (DownloadAdd refuses it: console error, nothing opened) and a download close callback (reason finished / removed) for a file id that is not among the agent's open downloads - open refused, close without open, wrong file id -; the close is the last package under the download task's request id and ends the request on the reference tree whether or not the file id is tracked, so it is in the finality table and ends generated task lives of COMMAND_FS tasks. Oracle clause (2b): when a finality-table callback was processed with an id that is outstanding by the model and held by the teamserver, no dependency failing, and nothing of it is visible (no teamserver-interface call, outstanding-id lists, session data and loot tree unchanged; label final-callback-without-visible-effect:<kind>), an output callback with the same id is sent next and must be refused - once the final callback of a task has been processed its id is no longer accepted", len(issueCmds), len(opCmds), len(kinds), len(relayIdx)),
 		Gen:  genE, Check: checkE, Classify: classifyE,
 		Assumptions: []string{
 			"finality table: a callback kind ends its task only where the Demon handler (payloads/Demon/src/core/Command.c) transmits exactly one package of that kind as its last action and starts nothing that reports later; streaming/asynchronous kinds never complete a task in the model",
